@@ -271,20 +271,14 @@ func RawRoundTrip(addr string, req []byte, method string, timeout time.Duration)
 	return out, nil
 }
 
-// ChunkedEncode frames b in chunks of the given sizes (the last size repeats), plus trailers.
+// ChunkedEncode frames b in chunks of the given sizes (the remainder is one chunk), plus trailers.
 func ChunkedEncode(b []byte, sizes []int, trailers []HeaderField) []byte {
 	var out bytes.Buffer
 	i := 0
 	for len(b) > 0 {
 		n := len(b)
-		if len(sizes) > 0 {
-			s := sizes[len(sizes)-1]
-			if i < len(sizes) {
-				s = sizes[i]
-			}
-			if s > 0 && s < n {
-				n = s
-			}
+		if i < len(sizes) && sizes[i] > 0 && sizes[i] < n {
+			n = sizes[i]
 		}
 		fmt.Fprintf(&out, "%x\r\n", n)
 		out.Write(b[:n])
